@@ -45,3 +45,54 @@ func init() {
 		Outside: []string{"larger configurations", "names longer than 3 bytes"},
 	})
 }
+
+func init() {
+	reg(&Spec{
+		ID: "C02", Pkgs: []string{"gateway", "util", "client"}, LoopBound: 400,
+		Quick: func() []Inst {
+			return []Inst{inst("gateway", "VH_C02_deliver", 1, 1), inst("gateway", "VH_C02_deliver", 2, 1), inst("gateway", "VH_C02_deliver", 3, 1), inst("gateway", "VH_C02_deliver", 3, 2)}
+		},
+		Thor: func() []Inst {
+			return []Inst{inst("gateway", "VH_C02_deliver", 1, 1), inst("gateway", "VH_C02_deliver", 2, 1), inst("gateway", "VH_C02_deliver", 3, 1), inst("gateway", "VH_C02_deliver", 3, 2), inst("gateway", "VH_C02_deliver", 4, 2), inst("gateway", "VH_C02_deliver", 2, 2)}
+		},
+		Asserts: []string{"C02.accepted", "C02.one_datagram", "C02.wellformed", "C02.register_only_for_new_names", "C02.register_carries_name", "C02.register_id_fresh", "C02.publish_after_regack", "C02.publish_uses_registered_id", "C02.is_publish", "C02.client_delivers", "C02.client_resolves_broker_name", "C02.same_payload_qos_retain"},
+		Reach:   []string{"C02.registers_first", "C02.direct_publish", "C02.delivered"},
+		Bounds: map[string]string{
+			"flow":          "broker PUBLISH (topic name of 1..3 symbolic bytes, thorough 1..4; QoS 0..2, retain, message ID, 2 payload bytes symbolic) through the real handleBrokerPublish; a REGISTER is answered by the real client (REGACK) and the gateway's PUBLISH is delivered through the real client to a '#' handler",
+			"state":         "active client; registry of 1..2 entries and predefined 1+1 entries with symbolic IDs/names shared by gateway and client; pre-state invariant: the client knows every gateway registration under the same ID",
+		},
+		Outside: []string{"the acknowledgement legs of QoS 1/2 (C16)", "larger registries"},
+	})
+}
+
+func c06Insts() []Inst {
+	var out []Inst
+	for k1 := int64(0); k1 <= 1; k1++ {
+		for k2 := int64(0); k2 <= 2; k2++ {
+			for o := int64(0); o <= 1; o++ {
+				out = append(out, inst("gateway", "VH_C06_gw", k1, k2, o))
+			}
+		}
+	}
+	return out
+}
+
+func init() {
+	reg(&Spec{
+		ID: "C06", Pkgs: []string{"gateway", "util", "client"}, LoopBound: 400,
+		Quick: func() []Inst {
+			out := c06Insts()
+			for k := int64(0); k <= 4; k++ {
+				out = append(out, inst("client", "VH_C06_cl", k, 0), inst("client", "VH_C06_cl", k, 1))
+			}
+			return out
+		},
+		Asserts: []string{"C06.gw_client_exchange_acknowledged", "C06.gw_broker_exchange_continues", "C06.cl_gateway_publish_gets_pubrec", "C06.cl_api_call_completes", "C06.cl_gateway_exchange_completes", "C06.cl_gateway_message_delivered_once"},
+		Reach:   []string{"C06.gw_done", "C06.cl_done"},
+		Bounds: map[string]string{
+			"gateway": "client-initiated PUBLISH QoS 1 / SUBSCRIBE with message ID m1 and broker-initiated PUBLISH QoS 1 / QoS 2 / QoS 1 on a new topic (REGISTER) with message ID m2, m1 and m2 symbolic and unconstrained, both start orders; then each side's acknowledgement",
+			"client":  "API call in flight (Publish QoS 1/2, Subscribe, Register, Unsubscribe; message ID from the client's sequence in a symbolic state) and a QoS 2 PUBLISH from the gateway with symbolic message ID, both orders; then the acknowledgements and the PUBREL",
+		},
+		Outside: []string{"three or more overlapping exchanges", "expiry of a third exchange with the same ID"},
+	})
+}
